@@ -19,10 +19,17 @@ Tr == ndJsonDeserialize(IOEnv.TRACE)
 ToSet(q) == {q[i] : i \in 1..Len(q)}
 
 \* ------------------------------------------------------------ the observation of one directory / one line
-DirRec(ln, d) == CHOOSE r \in ToSet(ln.dirs) : r.ino = d
-Logged(ln) == {r.ino : r \in ToSet(ln.dirs)}
+\* (by position: a set of the logged records would have to be sorted, i.e. whole directories compared)
+DirRec(ln, d) == ln.dirs[CHOOSE k \in 1..Len(ln.dirs) : ln.dirs[k].ino = d]
+Logged(ln) == {ln.dirs[k].ino : k \in 1..Len(ln.dirs)}
 LayOf(r) == [b |-> r.blks, inl |-> (r.inl = 1), dx |-> IF r.idx = 1 THEN DxOf(r.dx) ELSE NoDx]
-LsOf(r) == [e \in {x[1] : x \in ToSet(r.ls)} |-> LET x == CHOOSE y \in ToSet(r.ls) : y[1] = e IN <<x[2], x[3]>>]
+\* the listing is logged in the order of the name ids (the order in which ext2fs_dir_iterate2 delivered it is compared with
+\* the raw blocks by the harness and reported in r.ok): position of a name by bisection
+RECURSIVE PosOf(_, _, _, _)
+PosOf(q, e, lo, hi) == LET m == (lo + hi) \div 2 IN
+                       IF q[m][1] = e THEN m ELSE IF q[m][1] < e THEN PosOf(q, e, m + 1, hi) ELSE PosOf(q, e, lo, m - 1)
+LsSorted(q) == \A k \in 1..(Len(q) - 1) : q[k][1] < q[k + 1][1]
+LsOf(r) == LET q == r.ls IN [e \in {q[k][1] : k \in 1..Len(q)} |-> LET x == q[PosOf(q, e, 1, Len(q))] IN <<x[2], x[3]>>]
 
 \* ------------------------------------------------------------ one operation on both models
 Op(o, fe) == [op |-> o.op, d |-> o.d, n |-> o.n, i |-> o.i, v |-> o.v, sz |-> 0, exp |-> 0, fe |-> fe]
@@ -79,11 +86,11 @@ InodesAgree(ln, x0, x1) ==
         ELSE i \in Alloc(x0) /\ x1.ty[i] = x0.ty[i] /\ x1.links[i] = x0.links[i] /\ x1.ea[i] = x0.ea[i]
 
 DirAgrees(r, x1, ly, resync) ==
-   /\ r.ok = 1
+   /\ r.ok = 1 /\ LsSorted(r.ls)
    /\ r.ino \in DOMAIN x1.ent
    /\ LsOf(r) = x1.ent[r.ino] /\ Len(r.ls) = Cardinality(DOMAIN x1.ent[r.ino])
    /\ r.dd = x1.dd[r.ino]
-   /\ resync \/ LayOf(r) = ly
+   /\ IF resync THEN TRUE ELSE LayOf(r) = ly        \* (not a disjunction: TLC would branch on it)
 
 DirsAgree(ln, x0, x1, L0, L1, resync) ==
    /\ Logged(ln) \subseteq DOMAIN x1.ent
@@ -95,6 +102,10 @@ Conserved(ln, x) == /\ ln.fb + SumBlk(x) + x.leak = K.blk
                     /\ ln.fi + Cardinality(Alloc(x)) = K.ino
 
 \* ------------------------------------------------------------ actions
+\* TLC expands the conjuncts of an action syntactically and BRANCHES on every disjunction it meets on the way, also in
+\* unprimed predicates (k true disjunctions = 2^k identical successors).  The observation predicates are therefore
+\* handed to it as values: Holds(p) is evaluated as a whole.
+Holds(p) == p = TRUE
 IsEvent(e) == l <= Len(Tr) /\ Tr[l].e = e /\ l' = l + 1
 
 TReset ==
@@ -113,18 +124,18 @@ TReset ==
                  [bs |-> ln.bs, tail |-> ln.tail, cs |-> ln.cs, rlim |-> RootLimit(g0), nlim |-> NodeLimit(g0), maxlv |-> ln.maxlv]
          /\ NT' = ln.names
          /\ K' = [blk |-> ln.fb + SumBlk(x), ino |-> ln.fi + Cardinality(al), inline |-> (ln.inline = 1), dirindex |-> (ln.dirindex = 1)]
-         /\ Consistent(x)                                  \* a fresh mke2fs filesystem (plus, for the large-directory
-         /\ \A d \in dirs : DirRec(ln, d).ok = 1           \* behaviours, a prepared directory holding exactly the names ln.want)
-         /\ \A w \in ToSet(ln.want) : w[1] \in dirs /\ DOMAIN x.ent[w[1]] = ToSet(w[2]) /\ Len(DirRec(ln, w[1]).ls) = Len(w[2])
+         /\ Holds(Consistent(x))                           \* a fresh mke2fs filesystem (plus, for the large-directory
+         /\ Holds(\A d \in dirs : DirRec(ln, d).ok = 1)    \* behaviours, a prepared directory holding exactly the names ln.want)
+         /\ Holds(\A w \in ToSet(ln.want) : w[1] \in dirs /\ DOMAIN x.ent[w[1]] = ToSet(w[2]) /\ Len(DirRec(ln, w[1]).ls) = Len(w[2]))
 
 TStep ==
    /\ IsEvent("step")
    /\ LET ln == Tr[l]
           r == Run([s |-> s, L |-> L], ln.ops, 1, ln.fe)
           x1 == WithObservedBlocks(ln, r.s)
-      IN /\ InodesAgree(ln, s, x1)
-         /\ DirsAgree(ln, s, x1, L, r.L, FALSE)
-         /\ Conserved(ln, x1)
+      IN /\ Holds(InodesAgree(ln, s, x1))
+         /\ Holds(DirsAgree(ln, s, x1, L, r.L, FALSE))
+         /\ Holds(Conserved(ln, x1))
          /\ s' = x1 /\ L' = r.L
    /\ UNCHANGED <<g, NT, K>>
 
@@ -139,27 +150,29 @@ RebuiltOK(d, pre, post) ==
    ELSE LET self == d  par == s.dd[d]  ftd == Ft(FTDIR)
             Form(x) == IF RebuildIndexes(pre, g, K.dirindex) THEN IsRebuiltDx(post, self, par, ftd, NT, g, x)
                        ELSE IsRebuiltLinear(post, self, par, ftd, g, x)
+            cap == g.bs - g.tail
+            \* blocks at the end that hold nothing but one unused slot
+            Trail == Cardinality({j \in 2..Len(post.b) : \A k \in j..Len(post.b) : post.b[k] = <<Empty(cap)>>})
         IN IF d # LostFound THEN Form(0)
-           ELSE /\ Len(post.b) >= Len(pre.b)
-                /\ \E x \in 0..(Len(post.b) - 1) : (x > 0 => Len(post.b) = Len(pre.b)) /\ Form(x)
+           ELSE Len(post.b) >= Len(pre.b) /\ (Trail > 0 => Len(post.b) = Len(pre.b)) /\ Form(Trail)
 TFsckD ==
    /\ IsEvent("fsckD")
    /\ LET ln == Tr[l]
           x1 == WithObservedBlocks(ln, s)
           L1 == [d \in DOMAIN s.ent |-> IF d \in Logged(ln) THEN LayOf(DirRec(ln, d)) ELSE L[d]]
-      IN /\ Consistent(s)
+      IN /\ Holds(Consistent(s))
          /\ ln.rc = 0
-         /\ InodesAgree(ln, s, x1)
-         /\ DirsAgree(ln, s, x1, L, L1, TRUE)
-         /\ \A d \in DOMAIN s.ent : RebuiltOK(d, L[d], L1[d])
-         /\ Conserved(ln, x1)
+         /\ Holds(InodesAgree(ln, s, x1))
+         /\ Holds(DirsAgree(ln, s, x1, L, L1, TRUE))
+         /\ Holds(\A d \in DOMAIN s.ent : RebuiltOK(d, L[d], L1[d]))
+         /\ Holds(Conserved(ln, x1))
          /\ s' = x1 /\ L' = L1
    /\ UNCHANGED <<g, NT, K>>
 
 \* e2fsck -fn as the consistency oracle: clean exactly when the model says the filesystem is consistent
 TFsckN ==
    /\ IsEvent("fsckn")
-   /\ (Tr[l].rc = 0) <=> Consistent(s)
+   /\ Holds((Tr[l].rc = 0) <=> Consistent(s))
    /\ Tr[l].rc \in {0, 4}
    /\ UNCHANGED <<s, L, g, NT, K>>
 
